@@ -196,7 +196,13 @@ static int observe_list(jwk_set_t *s, const mlist_t *m, const int *ops, int nops
 	if ((int)n != m->n)
 		OBSV("list|count-differs", "after step %d of [%s]: count=%zu, model %d", step, lhist_str(ops, nops), n, m->n);
 	int errs = 0;
-	for (int i = 0; i < m->n + 2; i++) {
+	/* indexes are read from the far end down to 0, then upwards again, and the last read of all is the last item: an
+	 * implementation that remembers where its previous walk ended is thereby left "high" for the next operation and is
+	 * first asked for a high index after it (a scan that always restarts at 0 would reset any such memory) */
+	for (int pass = 0; pass < 2 * (m->n + 2) + 1; pass++) {
+		int i = pass < m->n + 2 ? m->n + 1 - pass : pass < 2 * (m->n + 2) ? pass - (m->n + 2) : m->n - 1;
+		if (i < 0)
+			continue;
 		const jwk_item_t *it = jwks_item_get(s, i);
 		if (i >= m->n) {
 			if (it)
@@ -211,7 +217,7 @@ static int observe_list(jwk_set_t *s, const mlist_t *m, const int *ops, int nops
 		if (strcmp(kid ? kid : "", m->it[i].kid) || (int)jwks_item_kty(it) != m->it[i].kty || !!jwks_item_error(it) != m->it[i].err)
 			OBSV("list|order-or-identity-differs", "item %d is kid=%s kty=%d err=%d, model kid=%s kty=%d err=%d after step %d of [%s]", i, kid ? kid : "", jwks_item_kty(it),
 			     jwks_item_error(it), m->it[i].kid, m->it[i].kty, m->it[i].err, step, lhist_str(ops, nops));
-		if (jwks_item_error(it)) {
+		if (jwks_item_error(it) && pass < m->n + 2) {
 			errs++;
 			if (!jwks_item_error_msg(it)[0])
 				OBSV("list|bad-item-without-message", "item %d has error but an empty message", i);
@@ -799,6 +805,20 @@ static void enumerate_c07(void)
 				free(doc);
 			}
 		}
+	/* quick tier: the pairs of the two commonest deviations (member absent, member null, member of another basic type) */
+	if (!vf_thorough)
+		for (int t = 0; t < NTEMPL; t++)
+			for (int m1 = 0; m1 < NMEM; m1++) {
+				if (!vf_case("JWK %s with member %s and every other member absent / null / true / a number", templ_name[t], MEMBERS[m1]))
+					continue;
+				for (int m2 = m1 + 1; m2 < NMEM; m2++)
+					for (int s1 = 0; s1 < 4; s1++)
+						for (int s2 = 0; s2 < 4; s2++) {
+							char *doc = deviate(TEMPL[t], m1, s1, m2, s2);
+							c07_case_doc(doc, strlen(doc), 1u << EP_CREATE, 1);
+							free(doc);
+						}
+			}
 	if (vf_thorough)
 		for (int t = 0; t < NTEMPL; t++)
 			for (int m1 = 0; m1 < NMEM; m1++)
@@ -819,8 +839,8 @@ static void enumerate_c07(void)
 }
 
 /* ================================================================== C08 */
-static const char *KIDS[] = { NULL, "k", "%LONG", "\xd0\xba\xd0\xbb\xd1\x8e\xd1\x87", "" };
-#define NKID 5
+static const char *KIDS[] = { NULL, "k", "%LONG", "\xd0\xba\xd0\xbb\xd1\x8e\xd1\x87", "", "%L255", "%L256", "%L257", "%L4096" };
+#define NKID 9
 static const char *USES[] = { NULL, "\"sig\"", "\"enc\"", "\"SIG\"", "\"\"", "5" };
 #define NUSE 6
 static const char *OPSV[] = { NULL, "[]", "[\"sign\"]", "[\"verify\"]", "[\"sign\",\"verify\"]", "[\"encrypt\"]", "[\"sign\",\"encrypt\"]", "[\"verify\",\"encrypt\"]",
@@ -1055,11 +1075,15 @@ static char *c08_build(const c08cfg_t *c, const char **algs, json_t **jout)
 	if (algs[c->alg_i])
 		json_object_set_new(j, "alg", json_string(algs[c->alg_i]));
 	if (KIDS[c->kid_i]) {
-		if (!strcmp(KIDS[c->kid_i], "%LONG")) {
-			char l[201];
-			memset(l, 'k', 200);
-			l[200] = 0;
+		if (KIDS[c->kid_i][0] == '%') {
+			/* long key ids, distinguishable at their very end */
+			int n = !strcmp(KIDS[c->kid_i], "%LONG") ? 200 : atoi(KIDS[c->kid_i] + 2);
+			char *l = malloc(n + 1);
+			memset(l, 'k', n);
+			l[n - 1] = 'Z';
+			l[n] = 0;
 			json_object_set_new(j, "kid", json_string(l));
+			free(l);
 		} else
 			json_object_set_new(j, "kid", json_string(KIDS[c->kid_i]));
 	}
